@@ -176,7 +176,8 @@ def synchroniser_stage(f, name):
             return all(from_pin(a) for a in e.args)
         if isinstance(e, (ast.GeneratorExp, ast.ListComp)):
             return from_pin(e.elt)
-        return isinstance(e, ast.Name) and e.id in chain
+        # ... or (a slice of) a synchroniser stage itself: a shift register is loaded from the pin and from its own earlier stages
+        return isinstance(e, ast.Name) and (e.id in chain or e.id in stages)
     stages = {n.targets[0].id for n in ast.walk(f.node) if isinstance(n, ast.Assign) and len(n.targets) == 1 and
               isinstance(n.targets[0], ast.Name) and isinstance(n.value, ast.Call) and ast.unparse(n.value.func) in ("Signal", "Signal.like") and
               any(k.arg == "reset_less" for k in n.value.keywords)}
